@@ -175,7 +175,9 @@ def defs_live(fx, sc):
     stubs = build_module_stubs(defs)
     # build_module_stubs_from_traces / StubIndexBuilder.get_stubs take the same path with another order of definitions
     for m, st in stubs.items():
-        if m not in ref_stubs or ref_stubs[m].render() != st.render():
+        # compared through ast (names, kinds, defaults, decorators, classes): the order of Union members inside an
+        # annotation depends on set iteration order (C14's subject), nothing else may differ
+        if m not in ref_stubs or rf.items_of_text(ref_stubs[m].render())[0] != rf.items_of_text(st.render())[0]:
             notes.append(f"MISMATCH: build_module_stubs_from_traces renders module {m} differently from build_module_stubs over the same definitions")
     if set(ref_stubs) != set(stubs):
         notes.append("MISMATCH: build_module_stubs_from_traces returns other modules than build_module_stubs")
@@ -272,7 +274,7 @@ def nested(fn):
 
 
 def live_scenarios(rnd, tier, tag):
-    n_mod = 33 if tier == "quick" else 330
+    n_mod = 20 if tier == "quick" else 150
     subsets = gen.all_kind_subsets()
     scs = []
     prev = None
@@ -330,11 +332,11 @@ def anno_name(t):
 def direct_scenarios(rnd, tier):
     seqs = gen.valid_kind_sequences(4)
     sigs = []           # (sig, valid)
-    reps = 2 if tier == "quick" else 6
+    reps = 1 if tier == "quick" else 6
     for seq in seqs:
         for _ in range(reps):
             sigs.append((gen.make_signature(rnd, seq, long_names=rnd.random() < 0.2), True))
-    for _ in range(120 if tier == "quick" else 2500):
+    for _ in range(90 if tier == "quick" else 1200):
         n = rnd.randrange(5, 9)
         seq = sorted((rnd.choice(gen.KINDS) for _ in range(n)), key=gen.KINDS.index)
         while seq.count("VP") > 1:
@@ -343,7 +345,7 @@ def direct_scenarios(rnd, tier):
             seq.remove("VK")
         sigs.append((gen.make_signature(rnd, seq, long_names=rnd.random() < 0.6), True))
     bad = []
-    for _ in range(60 if tier == "quick" else 600):
+    for _ in range(60 if tier == "quick" else 300):
         n = rnd.randrange(1, 6)
         seq = [rnd.choice(gen.KINDS) for _ in range(n)]
         bad.append((gen.make_signature(rnd, seq, validate=False, defaults_mode="any"), False))
@@ -368,7 +370,7 @@ def grammar_cases(rnd, tier):
     seqs = []
     for n in range(0, 4):
         seqs += [list(s) for s in itertools.product(gen.GRAMMAR_ALPHABET[:9], repeat=n)]
-    for _ in range(700 if tier == "quick" else 8000):
+    for _ in range(700 if tier == "quick" else 5000):
         seqs.append([rnd.choice(gen.GRAMMAR_ALPHABET) for _ in range(rnd.randrange(3, 9))])
     terms, infos = [], []
     for k, s in enumerate(seqs):
@@ -390,12 +392,30 @@ def describe_failure(c):
         key = (tuple(fc["qual"][:-1]), fc["qual"][-1])
         if got.count(key) != 1:
             return f"{head}: {'.'.join(fc['qual'])} appears {got.count(key)} times in its class (expected once)"
-    return f"{head} does not mirror the live functions (decorator / async / parameter names, kinds, defaults / receiver annotation)"
+    by_key = {(tuple(it["class"]), it["name"]): it for it in (c["parsed"] or [])}
+    for fc in c["funcs"]:
+        it = by_key[(tuple(fc["qual"][:-1]), fc["qual"][-1])]
+        q = ".".join(fc["qual"])
+        want_dec = {"CLASS": ["classmethod"], "STATIC": ["staticmethod"], "PROPERTY": ["property"],
+                    "DJANGO_CACHED_PROPERTY": ["cached_property"]}.get(fc["kind"], [])
+        if it.get("decorators") != want_dec:
+            return f"{head}: {q} ({fc['kind']}) is shown with decorators {it.get('decorators')}, expected {want_dec}"
+        if it.get("async") != fc["async"]:
+            return f"{head}: {q} is shown {'async' if it.get('async') else 'not async'} but the live function is {'a' if fc['async'] else 'not a'} coroutine function"
+        shown = [tuple(e[:3]) for e in it.get("params", [])]
+        live = [tuple(e[:3]) for e in fc["gt_params"]]
+        if shown != live:
+            return (f"{head}: parameters of {q} are shown as {shown} but inspect.signature of the live function gives {live} "
+                    f"(name, kind, has default)")
+        if fc["kind"] in ("CLASS", "INSTANCE", "PROPERTY", "DJANGO_CACHED_PROPERTY") and it.get("params") and fc["gt_params"] \
+                and it["params"][0][3] and not fc["gt_params"][0][3]:
+            return f"{head}: the receiver {it['params'][0][0]!r} of {q} is annotated in the stub but not in the source"
+    return f"{head} does not mirror the live functions (kind / async / qualname of the FunctionDefinition)"
 
 
 def evaluate(ctx, cases, name):
     terms = [c["term"] for c in cases]
-    outs = common.run_coq_shards(ctx.work, name, HEADER, terms, "mcase", "bad verdict_kf 0 cases", shard_size=60)
+    outs = common.run_coq_shards(ctx.work, name, HEADER, terms, "mcase", "bad verdict_kf 0 cases", shard_size=30)
     return common.parse_bad(outs)
 
 
@@ -403,7 +423,7 @@ def run(ctx):
     rnd = random.Random(ctx.seed * 1000 + 12)
     fx = Fixtures(ctx.work)
     try:
-        scs = live_scenarios(rnd, ctx.tier, os.getpid()) + direct_scenarios(rnd, ctx.tier)
+        scs = live_scenarios(rnd, ctx.tier, ctx.seed) + direct_scenarios(rnd, ctx.tier)
         cases, notes = [], []
         for sc in scs:
             for c in cases_of_scenario(fx, sc):
